@@ -77,6 +77,7 @@ func ZZ_C14_ControllerRouter() {
 	zzSettle()
 	zzAssert(c.ZZLockDepth() == 0, "C14.controller.router.lock-left-held-after-settling")
 	zzAssert(!(a.first == "ok" && len(zzErrors) > 0), "C14.controller.router.failed-request-answered-200-first:"+method+" "+path+"?action="+action)
+	c.ZZCheckMembership("C14.controller.router.membership")
 	// afterwards well-formed requests are still served
 	zzReadMode = 0
 	b := zzRoute(router, "GET", "/v1/volumes/"+EncodeID("vol"), "")
@@ -85,4 +86,35 @@ func ZZ_C14_ControllerRouter() {
 	zzAssert(l.handler && l.first == "ok", "C14.controller.router.ListReplicas-not-served-afterwards")
 	zzAssert(c.ZZLockDepth() == 0, "C14.controller.router.lock-left-held-after-follow-up")
 	zzReach("C14.controller.router.done")
+}
+
+type zzReq struct{ method, path, action string }
+
+// C18 / C03 through the REST API: two requests in a row, the second arriving before the
+// background work of the first (the monitor reaping a replica marked ERR, a detach) has
+// run.  After everything settled the membership bookkeeping is consistent (distinct
+// addresses, backends = replicas, reader/writer indexes, writable only with a quorum of
+// RW replicas), no lock is held and the API answers.
+func ZZ_C18_RestPairs() {
+	rf := zzParam("RF", 2)
+	c := controller.ZZSymbolicControllerLite(rf)
+	s := NewServer(c)
+	zzmux.Reset()
+	router := NewRouter(s)
+	vol := "/v1/volumes/" + EncodeID("vol")
+	rep := "/v1/replicas/" + EncodeID(controller.ZZAddr(zzConcretize(zzChoice("victim", rf))))
+	first := []zzReq{{"PUT", rep, ""}, {"DELETE", rep, ""}, {"POST", vol, "snapshot"}, {"POST", "/v1/replicas", ""}, {"POST", rep, "verifyrebuild"}}
+	second := []zzReq{{"DELETE", vol, "deleteSnapshot"}, {"POST", vol, "snapshot"}, {"POST", vol, "revert"}, {"POST", vol, "resize"}, {"GET", "/v1/replicas", ""},
+		{"GET", "/v1/stats", ""}, {"PUT", rep, ""}, {"DELETE", rep, ""}, {"POST", "/v1/replicas", ""}, {"POST", rep, "preparerebuild"}, {"POST", rep, "verifyrebuild"}, {"POST", "/v1/delete", ""}}
+	r1 := first[zzConcretize(zzChoice("first", len(first)))]
+	r2 := second[zzConcretize(zzChoice("second", len(second)))]
+	zzReadMode = 0
+	a1 := zzRoute(router, r1.method, r1.path, r1.action)
+	a2 := zzRoute(router, r2.method, r2.path, r2.action)
+	zzAssert(a1.handler && a2.handler, "C18.rest.pairs.not-routed")
+	zzSettle()
+	c.ZZCheckMembership("C18.rest.pairs")
+	l := zzRoute(router, "GET", "/v1/replicas", "")
+	zzAssert(l.handler && l.first == "ok", "C18.rest.pairs.ListReplicas-not-served-afterwards")
+	zzReach("C18.rest.pairs.done")
 }
